@@ -16,7 +16,8 @@
 
     One model serves both twins wherever the two Go bodies are identical after type erasure (checked
     on every run by the closing theorem over `Gen/Twins.lean`); where the mechanisms differ
-    (`Stream.Remove`, `StreamSet.Minus/IsSubsetByKey/IsSupersetByKey`, `StreamSetFromMap`) there are
+    (`Stream.Remove`, `StreamSet.Minus/IsSubsetByKey/IsSupersetByKey/Clone/Union/Intersection`,
+    `StreamSetFromMap`) there are
     separate `G.*` / `I.*` models and an equality theorem in `Props/C05.lean`. -/
 
 namespace FpgoVerif.C05
@@ -275,14 +276,19 @@ def minus (m : GoMap κ ν) : Option (GoMap κ ν) → GoMap κ ν
 
 end MapSet
 
-/-! ### StreamSet methods (by key, then per-key stream; per-key streams are non-nil) -/
+/-! ### StreamSet methods (by key, then per-key stream; per-key streams are non-nil)
+
+    The two families build the result object differently: the generic one through
+    `StreamSetFromMap(x)` (= `DuplicateMap(x)`), the interface{} one by wrapping `x` directly
+    (`&StreamSetForInterfaceDef{SetForInterfaceDef: x}`).  `wrap` is that constructor. -/
 
 namespace StreamSet
 variable {κ α : Type} [DecidableEq κ] [DecidableEq α]
 
 abbrev SS (κ α : Type) := GoMap κ (List α)
 
-def clone (m : SS κ α) : SS κ α := (duplicateMap m).map (fun p => (p.1, Stream.clone p.2))
+def cloneW (wrap : SS κ α → SS κ α) (m : SS κ α) : SS κ α :=
+  (wrap (duplicateMap m)).map (fun p => (p.1, Stream.clone p.2))
 
 /-- the `for k, v := range …` post-pass shared by Union / Intersection / MinusStreams -/
 def perKey (f : List α → Option (List α) → List α) (input : SS κ α) (over result : SS κ α) : SS κ α :=
@@ -291,29 +297,45 @@ def perKey (f : List α → Option (List α) → List α) (input : SS κ α) (ov
     | some v2 => if v2.length > 0 then mset r p.1 (f p.2 (some v2)) else r
     | none => r) result
 
-def union (m : SS κ α) : Option (SS κ α) → SS κ α
+def unionW (wrap : SS κ α → SS κ α) (m : SS κ α) : Option (SS κ α) → SS κ α
   | none => m
   | some i =>
     if i.length == 0 then m
-    else perKey (fun v v2 => Stream.extend v [v2]) i m (duplicateMap (merge m i))
+    else perKey (fun v v2 => Stream.extend v [v2]) i m (wrap (merge m i))
 
-def intersection (m : SS κ α) : Option (SS κ α) → SS κ α
+def intersectionW (wrap : SS κ α → SS κ α) (m : SS κ α) : Option (SS κ α) → SS κ α
   | none => []
   | some i =>
     if i.length == 0 then []
     else
-      let result := duplicateMap (intersectionMapByKey [m, i])
+      let result := wrap (intersectionMapByKey [m, i])
       perKey Stream.intersection i result result
 
-def minusStreams (m : SS κ α) : Option (SS κ α) → SS κ α
+def minusStreamsW (wrap : SS κ α → SS κ α) (m : SS κ α) : Option (SS κ α) → SS κ α
   | none => []
   | some i =>
     if i.length == 0 then []
     else
-      let result := clone m
+      let result := cloneW wrap m
       perKey Stream.minus i result result
 
 end StreamSet
+
+namespace G
+variable {κ α : Type} [DecidableEq κ] [DecidableEq α]
+def ssClone (m : GoMap κ (List α)) : GoMap κ (List α) := StreamSet.cloneW duplicateMap m
+def ssUnion (m : GoMap κ (List α)) (i : Option (GoMap κ (List α))) := StreamSet.unionW duplicateMap m i
+def ssIntersection (m : GoMap κ (List α)) (i : Option (GoMap κ (List α))) := StreamSet.intersectionW duplicateMap m i
+def ssMinusStreams (m : GoMap κ (List α)) (i : Option (GoMap κ (List α))) := StreamSet.minusStreamsW duplicateMap m i
+end G
+
+namespace I
+variable {κ α : Type} [DecidableEq κ] [DecidableEq α]
+def ssClone (m : GoMap κ (List α)) : GoMap κ (List α) := StreamSet.cloneW id m
+def ssUnion (m : GoMap κ (List α)) (i : Option (GoMap κ (List α))) := StreamSet.unionW id m i
+def ssIntersection (m : GoMap κ (List α)) (i : Option (GoMap κ (List α))) := StreamSet.intersectionW id m i
+def ssMinusStreams (m : GoMap κ (List α)) (i : Option (GoMap κ (List α))) := StreamSet.minusStreamsW id m i
+end I
 
 namespace G
 variable {κ α : Type} [DecidableEq κ]
